@@ -215,6 +215,10 @@ class Device(object):
     def pump(self, s):
         if s.dev_closed:
             return
+        die = self.cfg.get('die')
+        if die and s.idx == die['stream'] and len(s.wrote) >= die['after'] and s.out:
+            s.out.clear()                 # the service dies: the stream is closed instead of the next WRTE
+            s.finished = True
         if s.out and not s.awaiting_ack:
             payload = s.out.popleft()
             s.wrote.append(payload)
